@@ -114,3 +114,84 @@ class BlockDevice:
         for p in paths:
             self.execute(tuple(p))
         return self.root
+
+
+def segment(words, rules):
+    """Junos-like flattened statement -> path of rows. Block rules have a fixed word count (generator contract); the
+    remainder after the last block is one leaf row."""
+    locals_, globals_ = RB.split_level(rules)
+    path = []
+    while words:
+        hit = None
+        for r in locals_:
+            if not r.children:
+                continue
+            n = len(r.pat.split())
+            if len(words) < n:
+                continue
+            cand = " ".join(words[:n])
+            s = RB.select(cand, locals_, globals_)
+            if s is not None and s[0] is r:
+                hit = (cand, n, s)
+                break
+        if hit is None:
+            path.append(" ".join(words))
+            break
+        path.append(hit[0])
+        words = words[hit[1]:]
+        locals_, globals_ = hit[2][2], hit[2][3]
+    return path
+
+
+class FlatDevice(BlockDevice):
+    """Junos-like CLI on top of the same state model: every command is one flattened statement
+    `<set-word> w1..wn` / `<set-word>? delete w1..wn`; `set` creates the blocks on its way, `delete` of something inside
+    a block that does not exist is a no-op."""
+
+    def __init__(self, tree_nodes, rules, set_words, strict_undo_redo=True):
+        super().__init__(tree_nodes, rules, "delete", (), strict_undo_redo)
+        self.set_words = set_words  # {"set"} or {"/configure"}
+
+    def _exists(self, path):
+        nodes = self.root
+        for b in path:
+            hit = None
+            for n in nodes:
+                if n[0] == b:
+                    hit = n
+                    break
+            if hit is None:
+                return False
+            nodes = hit[1]
+        return True
+
+    def execute_flat(self, cmd):
+        words = cmd.split()
+        delete = False
+        if words and words[0] in self.set_words:
+            words = words[1:]
+            if words and words[0] == "delete" and "set" not in self.set_words:
+                delete, words = True, words[1:]
+        elif words and words[0] == "delete":
+            delete, words = True, words[1:]
+        else:
+            raise DeviceError("command %r is neither a set nor a delete statement" % cmd)
+        if not words:
+            raise DeviceError("command %r addresses nothing" % cmd)
+        path = segment(words, self.rules)
+        if delete:
+            if not self._exists(path[:-1]):
+                self.log.append((tuple(path), "remove", None))
+                return
+            return self.execute(tuple(path[:-1]) + ("delete " + path[-1],))
+        for i in range(1, len(path)):
+            if not self._exists(path[:i]):
+                self.execute(tuple(path[:i]))
+        return self.execute(tuple(path))
+
+    def run(self, paths):
+        for p in paths:
+            if len(p) != 1:
+                raise DeviceError("flattened formatter emitted a multi-part command %r" % (p,))
+            self.execute_flat(p[0])
+        return self.root
